@@ -100,8 +100,86 @@ type typedExpr struct {
 	cmp            bool // compared with the generic document in Go only (not sent to the Lean typed model)
 }
 
+// Compiled-in types with EMBEDDED structs (reflect.StructOf cannot build those): fields promoted from an embedded
+// struct, by value and through a pointer (nil or not), are part of the JSON form, and the library finds them
+// through FieldByName.  Used by every 12th typed case; compared with the generic document in Go only.
+type EmbAudit struct {
+	Author string
+	Rev    float64
+	Tags   []string
+}
+type EmbMeta struct {
+	Owner string
+	Kind  string
+}
+type EmbItem struct {
+	EmbAudit
+	ID   string
+	Note string
+}
+type EmbDoc struct {
+	EmbMeta
+	*EmbAudit
+	Title string
+	Items []EmbItem
+	PItem *EmbItem
+}
+
+func embeddedCase(g *gen) (doc interface{}, generic interface{}, exprs []typedExpr) {
+	mkAudit := func() EmbAudit {
+		return EmbAudit{Author: g.r.pick([]string{"ada", "bob", ""}), Rev: float64(g.r.intn(5)), Tags: []string{"t", g.r.pick([]string{"u", "v"})}[:g.r.intn(3)]}
+	}
+	d := EmbDoc{EmbMeta: EmbMeta{Owner: g.r.pick([]string{"me", "you", ""}), Kind: "k"}, Title: g.r.pick([]string{"title", ""})}
+	if g.r.chance(70) {
+		a := mkAudit()
+		d.EmbAudit = &a
+	}
+	n := g.r.intn(4)
+	for i := 0; i < n; i++ {
+		d.Items = append(d.Items, EmbItem{EmbAudit: mkAudit(), ID: "i" + strconv.Itoa(i), Note: g.r.pick([]string{"", "n"})})
+	}
+	if d.Items == nil {
+		d.Items = []EmbItem{}
+	}
+	if g.r.chance(60) {
+		d.PItem = &EmbItem{EmbAudit: mkAudit(), ID: "p"}
+	}
+	if d.EmbAudit == nil {
+		// a nil embedded pointer: encoding/json omits its fields, the library answers null for them
+		// (FieldByName through a nil embedded pointer panics in reflect: only the non-promoted names are asked)
+		for _, e := range []string{"Owner", "Kind", "Title", "Items[*].ID", "Items[*].Author", "Items[?Rev > `1`].Author", "PItem.Author", "PItem.Tags[0]", "Owner || Title",
+			"[Owner, Title]", "{o: Owner, n: length(Items)}", "Items[*].Tags[]", "Items[*].[ID, Author, Rev]", "length(Items)"} {
+			exprs = append(exprs, typedExpr{typed: e, generic: e, cmp: true})
+		}
+	} else {
+		for _, e := range []string{"Owner", "Kind", "Author", "Rev", "Tags", "Tags[0]", "length(Tags)", "Title", "Items[*].ID", "Items[*].Author", "Items[?Rev > `1`].Author", "PItem.Author", "PItem.Tags[0]",
+			"Owner || Title", "Author && Owner", "[Owner, Author, Title]", "{o: Owner, a: Author, n: length(Items)}", "Items[*].Tags[]", "Items[*].[ID, Author, Rev]",
+			"[Author, Author, Owner, Owner]", "Items[*].Author | [Author, @]"} {
+			exprs = append(exprs, typedExpr{typed: e, generic: e, cmp: true})
+		}
+	}
+	// naming the embedded struct itself (`EmbMeta.Owner`) finds it in Go (FieldByName) but not in the JSON form, where
+	// its fields are promoted and the struct has no key of its own: outside the property (which speaks of the field
+	// names of the JSON form); asked for the no-panic half only
+	for _, e := range []string{"EmbMeta.Owner", "Items[0].EmbAudit.Author", "EmbMeta", "Items[*].EmbAudit"} {
+		exprs = append(exprs, typedExpr{typed: e, generic: e})
+	}
+	if g.r.chance(50) {
+		doc = &d
+	} else {
+		doc = d
+	}
+	js, _ := json.Marshal(doc)
+	json.Unmarshal(js, &generic)
+	return
+}
+
 func typedCase(seed uint64, idx int) (g *gen, doc interface{}, generic interface{}, exprs []typedExpr) {
 	g = &gen{r: mix(seed, "typed", idx), budget: 40, extreme: true}
+	if idx%12 == 5 {
+		doc, generic, exprs = embeddedCase(g)
+		return
+	}
 	root := reflect.New(tRoot).Elem()
 	root.Field(0).SetString(g.r.pick([]string{"title", "", "héllo"}))
 	root.Field(1).SetFloat(float64(g.r.intn(10)))
